@@ -22,7 +22,7 @@ TAIL = dict(add_expr=0.4, to_expr=0.3, support=0.3, count=0.3, pick=0.3, copy=0.
             manager_roundtrip=0.15, image=0.3, declare=0.4, undeclare=0.3, declare_many=0.15, sizes=0.3,
             to_nx=0.2, dump_dot=0.2, traverse=0.3, fop=0.4, reject=0.4, fork=0.15, probe=0.4, redo=0.4,
             quant=0.4, let=0.4, cube=0.3, find_or_add=0.3, eqcheck=0.3, mdd=0.2, bdd_to_mdd=0.05, dddmp=0.05,
-            pairs=0.2, reorder=0.3, swap=0.4, gc=0.4)
+            pairs=0.2, reorder=0.3, swap=0.4, gc=0.4, nest=0.4)
 
 _w = gen._w
 
@@ -56,14 +56,15 @@ PROFILES = {
                 sift_tiny=True),
     'C08': dict(weights=_w(apply=8, fop=10, drop=14, dup=5, traverse=8,
                            gc=5, reorder=3, finalize=4, arm_final=4,
-                           configure=1, arm=2, quant=2, let=2, dump=1, load=2, reject=2, copy=2),
+                           configure=1, arm=2, quant=2, let=2, dump=1, load=2, reject=2, copy=2, nest=6),
                 flavors=['autoref'], nv=(2, 7), steps=(20, 140), copy_copy=0.1, disk_faults=0.3, m1_rate=0.15,
+                explicit_release=0.12,
                 reject_kinds=['ctor_unknown', 'foreign', 'unknown_node', 'formula_syntax', 'copy_missing_var'],
                 line_mode=dict(quick=0.1, thorough=0.15)),
     'C09': dict(weights=_w(apply=12, ite=4, fop=4, quant=5, let=10, cube=3,
                            var=6, find_or_add=2, add_expr=4, drop=5, gc=1,
                            swap=0, reorder=0, pairs=0, configure=1, arm=14,
-                           knobs=1, copy=3, load=3, dump=2, image=5, support=3, count=1, pick=1, to_expr=1, sizes=1),
+                           knobs=1, copy=3, load=3, dump=2, image=5, nest=6, support=3, count=1, pick=1, to_expr=1, sizes=1),
                 flavors=['raw', 'autoref'], nv=(3, 9), steps=(20, 120),
                 dyn=True, m1_rate=0.1),
     'C10': dict(weights=_w(support=8, count=8, pick=10, apply=8, gc=1, swap=3, reorder=1),
@@ -88,7 +89,7 @@ PROFILES = {
                 flavors=['raw'], nv=(1, 5), steps=(15, 60)),
     'C17': dict(weights=_w(reject=18, apply=8, add_expr=3, load=4, dump=3, gc=3,
                            swap=2, reorder=1, declare=2, drop=5, arm=0,
-                           configure=0, ite=2, quant=2, let=3, cube=1, find_or_add=2, fop=2),
+                           configure=0, ite=2, quant=2, let=3, cube=1, find_or_add=2, fop=2, copy=2, image=2),
                 alloc_faults=True,
                 flavors=['raw', 'autoref'], nv=(1, 6), steps=(20, 100),
                 m1_rate=0.2, disk_faults=0.9, dyn_rate=0.35, spare_rate=0.5,
@@ -190,6 +191,7 @@ def _make_cfg(prop, seed, tier='quick', idx=0):
         copy_copy=bool(P.get('copy_copy')) and r.random() < P['copy_copy'],
         copy_memo_run=bool(P.get('copy_memo_run')) and r.random() < P['copy_memo_run'],
         alloc_rate=(r.choice([0.0, 0.1, 0.25]) if P.get('alloc_faults') else 0.0),
+        explicit_release=P.get('explicit_release', 0.0),
         sift_tiny=bool(P.get('sift_tiny')), doc_cases=doc_cases,
         line_mode=bool(P.get('line_mode')) and r.random() < P['line_mode'].get(tier, 0.0),
         ctor_perm=(r.randrange(1, 1 << 30) if r.random() < 0.15 else None),
